@@ -102,7 +102,7 @@ _PRIORITY = ["Attention", "GroupQueryAttention", "MultiHeadAttention", "SDPA", "
 
 def _chains():
     import onnxscript.rewriter.ort_fusions._core as core
-    from onnxscript.rewriter.ort_fusions import fused_matmul_rule_sets, instance_to_group_normalization, softmax
+    from onnxscript.rewriter.ort_fusions import fused_matmul_rule_sets, instance_to_group_normalization, shape_optimization, softmax
 
     def ruleset(rs):
         return lambda model: rs.apply_to_model(model)
@@ -130,6 +130,7 @@ def _chains():
                 ("packed_qkv_for_gqa", core.fuse_qkv_gqa), ("sdpa_via_mha", core.replace_sdpa_by_mha)],
         "fused_matmul": [("fused_matmul", ruleset(fused_matmul_rule_sets.fused_matmul_rule_sets()))],
         "softmax": [("softmax", ruleset(softmax.rules))],
+        "shape_optimization": [("shape_optimization", ruleset(shape_optimization.rules))],
         "instance_to_group_normalization": [("instance_to_group_normalization", ruleset(instance_to_group_normalization.rules))],
     }
 
@@ -250,6 +251,14 @@ def tolerances(outputs):
     return rel, rel * s
 
 
+def _reference_unreliable(model):
+    """onnx.reference has a single Softmax/LogSoftmax/Hardmax kernel (the opset-13 meaning: one axis, default -1).  Before opset 13 these
+    operators flatten the input to 2-D at `axis` (default 1), which onnxruntime - the runtime the property names - implements.  The
+    cross-check of the SOURCE against onnx.reference is skipped for such models; the fused result is judged on onnxruntime as always."""
+    opset = next((o.version for o in model.opset_import if o.domain in ("", "ai.onnx")), 99)
+    return opset < 13 and any(n.op_type in ("Softmax", "LogSoftmax", "Hardmax") for n in model.graph.node)
+
+
 def check(model, unit, chain, feeds_list):
     """Oracle on one (host model, unit).  Returns (verdicts, info)."""
     info = {"fired": [], "counts": {}, "verdict": "unchanged"}
@@ -267,7 +276,7 @@ def check(model, unit, chain, feeds_list):
             info["verdict"] = "skip:source_fails_on_ort"
             info["source_error"] = a[1]
             return verdicts, info
-        if src.ev is not None:
+        if src.ev is not None and not _reference_unreliable(model):
             b = execs.run_ref(None, feeds, src.ev)
             if b[0] == "ok":
                 rel, abs_ = tolerances(a[1])
@@ -334,7 +343,7 @@ def check(model, unit, chain, feeds_list):
 # (families, weight): 16 shard groups; the attention hosts are the most expensive per case, so they get fewer cases per shard
 GROUPS = [(["rms_normalization"], 1.0), (["skip_normalization"], 1.0), (["gelu"], 1.0), (["bias_gelu"], 1.0), (["rotary_embedding"], 0.8),
           (["rotary_embedding"], 0.8), (["sdpa"], 0.9), (["sdpa"], 0.9), (["mha"], 0.6), (["mha"], 0.6), (["gqa"], 0.6), (["fused_matmul"], 1.2),
-          (["softmax", "instance_to_group_normalization"], 1.0), (["skip_normalization"], 1.0), (["fused_matmul"], 1.2),
+          (["softmax", "instance_to_group_normalization", "shape_optimization"], 1.5), (["skip_normalization"], 1.0), (["fused_matmul"], 1.2),
           (["rms_normalization", "gelu", "bias_gelu"], 1.0)]
 
 
